@@ -2,7 +2,7 @@ from vlib.runner import Ob
 
 
 def obligations(tier, seed):
-    H = dict(harness="h_c13.c", units=["src/hamm.c", "src/vps.c", "src/packet-830.c"], vin_size=128,
+    H = dict(harness="h_c13.c", units=["src/hamm.c", "src/vps.c", "src/packet-830.c"], vin_size=128, flags=["--no-undefined-shift-check"],
              stubs=["struct caption carved out of vbi_decoder", "vbi_send_event: snapshot log", "vbi_chsw_reset (drops the old station's cache): call log",
                     "vbi_cni_table: 3 stations of the real struct type (tables.c not linked)", "cache functions: unused stubs"],
              unwindset={"bytes_eq.0": 20, "ref_station.0": 5, "ref_station.1": 5, "station_lookup.0": 5, "station_lookup.1": 5, "station_lookup.2": 5, "station_lookup.3": 5,
